@@ -10,6 +10,7 @@ import (
 	"reflect"
 	"regexp"
 	"strings"
+	"unsafe"
 
 	"github.com/blues/jsonata-go/jlib"
 	"github.com/blues/jsonata-go/jparse"
@@ -25,6 +26,7 @@ func (n callableName) Name() string {
 }
 
 func (n *callableName) SetName(s string) {
+	vpoint(vWrite, unsafe.Pointer(&n.name))
 	n.name = s
 }
 
@@ -205,6 +207,7 @@ func makeGoCallableParams(typ reflect.Type) []goCallableParam {
 }
 
 func (c *goCallable) SetContext(context reflect.Value) {
+	vpoint(vWrite, unsafe.Pointer(&c.context))
 	c.context = context
 }
 
@@ -229,6 +232,7 @@ func (c *goCallable) Call(argv []reflect.Value) (reflect.Value, error) {
 		return undefined, err
 	}
 
+	vpoint(vCall, nil)
 	results := c.fn.Call(argv)
 
 	if len(results) == 2 && !results[1].IsNil() {
@@ -250,6 +254,7 @@ func (c *goCallable) validateArgCount(argv []reflect.Value) ([]reflect.Value, er
 		// TODO: Return an error if the evaluation context
 		// is not the correct type.
 		newargv := make([]reflect.Value, 1, len(argv)+1)
+		vpoint(vRead, unsafe.Pointer(&c.context))
 		newargv[0] = c.context
 		argv = append(newargv, argv...)
 	}
